@@ -278,7 +278,9 @@ def _ex_init():
                 dict(polymer_reactivities={'$A': 0.5, '$B': 0.5}, fragment_reactivities={'$A': {'$A': 0.0, '$B': 1.0}, '$B': {'$A': 1.0, '$B': 0.0}})),
                ("{#A=[$][#a][$]}", False, dict(polymer_reactivities={'$': 1.0})),
                ("{#A=[$][#a][$]}", False, dict(polymer_reactivities={'$': 1.0}, fragment_masses={})),
-               ("{#PEO=[$]COC[$]}", True, dict(polymer_reactivities={'$': 1.0}, fragment_masses={}))]
+               ("{#PEO=[$]COC[$]}", True, dict(polymer_reactivities={'$': 1.0}, fragment_masses={})),
+               # atomistic fragments AND a mass table
+               ("{#PEO=[>]COC[<],#OH=[$]O}", True, dict(polymer_reactivities={'>': 0.4, '<': 0.4, '$': 0.2}, fragment_masses={'PEO': 44.05, 'OH': 17.0}))]
     from cgsmiles.sample import MoleculeSampler
     for text, aa, kw in configs:
         try:
@@ -345,8 +347,10 @@ contract(
         1: Loop(over='self.fragment_dict.items()', invariant=[
             _INIT_TABLE, _INIT_COMPLETE.format(inner='', outer=' if key_index(fragment_dict, f) < _i1'),
             "all(is_descriptor(b) for b in keys(" + _FBB + "))",
-            "implies(guess_mass_from_PTE, all(f in self.fragment_masses for f in keys(fragment_dict) if key_index(fragment_dict, f) < _i1))",
-            "implies(not guess_mass_from_PTE, fragment_masses is not None and "
+            # (stated over the arguments, not over the local flag the code happens to use)
+            "implies(fragment_masses is None or len(fragment_masses) == 0, "
+            "all(f in self.fragment_masses for f in keys(fragment_dict) if key_index(fragment_dict, f) < _i1))",
+            "implies(fragment_masses is not None and len(fragment_masses) > 0, "
             "all(f in self.fragment_masses and self.fragment_masses[f] == fragment_masses[f] for f in keys(fragment_masses)))"]),
         2: Loop(over='bondings.items()', invariant=[
             _INIT_TABLE, _INIT_COMPLETE.format(inner='', outer=' if key_index(fragment_dict, f) < _i1'),
